@@ -117,6 +117,17 @@ Theorem c05_deleted_needs_stable_nodes :
 Proof. exact dead_needs_stable_nodes. Qed.
 Print Assumptions c05_deleted_needs_stable_nodes.
 
+(* observation on the real code, replayed as corpus cases r4d / r4e: a nodeName change of an available
+   reservation delivered plugin-listener-first leaves a dangling matchableOnNode entry *)
+Theorem c05_node_migration_dangling :
+  (let c := hrun init_cache (witness_migration 0) in
+   infos c = [] /\ idx_mem 2 1 (matchable c) = true /\ visit 2 c = [-1])
+  /\ (let c := hrun init_cache (witness_migration 1) in
+      map r_uid (infos c) = [1] /\ matchable c = [(2, [1])] /\ visit 2 c = [1])
+  /\ stable_along init_cache (witness_migration 0) = false.
+Proof. exact node_migration_dangling. Qed.
+Print Assumptions c05_node_migration_dangling.
+
 (* ---- scheduling cycles ---- *)
 
 (* a pod is assumed into reservation t by a scheduling cycle only if t is visited on the node
